@@ -292,12 +292,22 @@ def typestate(prog: Program, rep, x: ExcFlow, only_flow: bool = False):
             return False
         nm = recv.id
         if fi is sv:
-            if nm in ("iterate", "initial_iterate"):
-                # validated once check_eval has run: the site must come after the initial check
-                return True
-            if nm == "next_iterate":
-                return any(f[0] == "truthy" and (f[1].endswith(".accepted") or ".accept" in f[1]) for f in si.facts)
-            return False
+            # by role, not by spelling: the carried iterate (and the start it was created from) is validated once check_eval has
+            # run; the candidate of a trial step (`_compute_step(..).iterate`) is validated where the step was accepted
+            from .solveloop import solve_loop
+            carried = solve_loop(prog).names().get("iterate")
+            val = ff.resolved(si.stmt, recv) if si is not None else recv
+            accepted_here = any(f[0] == "truthy" and (f[1].endswith(".accepted") or ".accept" in f[1]) for f in si.facts) if si is not None else False
+            oks = []
+            for alt in phi_alternatives(val):
+                t = U(alt)
+                if (carried and t.startswith(f"__loop__('{carried}'")) or ("create_transformed_iterate(" in t and "_compute_step(" not in t):
+                    oks.append(True)
+                elif t.endswith(".iterate") and "_compute_step(" in t:
+                    oks.append(accepted_here)
+                else:
+                    oks.append(False)
+            return bool(oks) and all(oks)
         # callees: every parameter of the scope functions receives validated iterates (checked at the call sites below)
         return nm in fi.params or nm == "iterate" and f"{nm}" in U(fi.node)
 
